@@ -136,6 +136,17 @@ def rectCorners (l w : Rat) (ctr : Pt) (cθ sθ : Rat) : List Pt :=
   [(-l / 2, -w / 2), (-l / 2, w / 2), (l / 2, w / 2), (l / 2, -w / 2)].map fun (h : Rat × Rat) =>
     (⟨cθ * h.1 - sθ * h.2 + ctr.x, sθ * h.1 + cθ * h.2 + ctr.y⟩ : Pt)
 
+/-- One vertex of `Polygon.rotate_translate_local(translation = pos, angle = θ)` (shape.py:407-424), by which
+    `occupancy_shape_from_state` places a polygon-shaped obstacle at a state: rotate about the polygon's CENTROID `o`
+    (`shapely.affinity.rotate(..., origin="centroid")`) with `(cθ, sθ) = (cos θ, sin θ)`, then translate by `pos`. -/
+def placeAbout (cθ sθ : Rat) (o pos v : Pt) : Pt :=
+  ⟨o.x + (cθ * (v.x - o.x) - sθ * (v.y - o.y)) + pos.x, o.y + (sθ * (v.x - o.x) + cθ * (v.y - o.y)) + pos.y⟩
+
+/-- the occupancy polygon of a polygon-shaped obstacle at a state: every coordinate of the body polygon's ring placed, then
+    `Polygon.__init__`. -/
+def placePolygon (cθ sθ : Rat) (o pos : Pt) (ring : List Pt) : Res (List Pt) :=
+  polyMk (ring.map (placeAbout cθ sθ o pos))
+
 /-! ### states -/
 
 inductive Pos where
